@@ -178,7 +178,7 @@ where
         }
         (Float(v1), Float(v2)) => {
             let f = float_op(*v1, *v2);
-            if f.is_infinite() {
+            if !f.is_finite() {
                 return None;
             } else {
                 Float(f)
@@ -186,7 +186,7 @@ where
         }
         (Integer(v1), Float(v2)) => {
             let f = float_op(f64::from(*v1), *v2);
-            if f.is_infinite() {
+            if !f.is_finite() {
                 return None;
             } else {
                 Float(f)
@@ -194,13 +194,21 @@ where
         }
         (Float(v1), Integer(v2)) => {
             let f = float_op(*v1, f64::from(*v2));
-            if f.is_infinite() {
+            if !f.is_finite() {
                 return None;
             } else {
                 Float(f)
             }
         }
     })
+}
+
+fn float_quotient_to_integer(quotient: f64) -> Option<SimpleNumber> {
+    if quotient.is_finite() { Some(Integer(quotient as i32)) } else { None }
+}
+
+fn finite_float(value: f64) -> Option<SimpleNumber> {
+    if value.is_finite() { Some(Float(value)) } else { None }
 }
 
 fn shift_count(count: i32) -> Option<u32> {
@@ -294,7 +302,7 @@ impl GarnishNumber for SimpleNumber {
                 }
 
                 let f = v1.powf(v2);
-                if f.is_infinite() {
+                if !f.is_finite() {
                     return None;
                 } else {
                     Float(f)
@@ -306,7 +314,7 @@ impl GarnishNumber for SimpleNumber {
                 }
 
                 let f = f64::from(v1).powf(v2);
-                if f.is_infinite() {
+                if !f.is_finite() {
                     return None;
                 } else {
                     Float(f)
@@ -318,7 +326,7 @@ impl GarnishNumber for SimpleNumber {
                 }
 
                 let f = v1.powf(f64::from(v2));
-                if f.is_infinite() {
+                if !f.is_finite() {
                     return None;
                 } else {
                     Float(f)
@@ -341,21 +349,9 @@ impl GarnishNumber for SimpleNumber {
 
                 Integer(v)
             }
-            (Float(v1), Float(v2)) => {
-                let v = v1.div(v2) as i32;
-
-                Integer(v)
-            }
-            (Integer(v1), Float(v2)) => {
-                let v = (v1 as f64).div(v2) as i32;
-
-                Integer(v)
-            }
-            (Float(v1), Integer(v2)) => {
-                let v = v1.div(v2 as f64) as i32;
-
-                Integer(v)
-            }
+            (Float(v1), Float(v2)) => return float_quotient_to_integer(v1.div(v2)),
+            (Integer(v1), Float(v2)) => return float_quotient_to_integer((v1 as f64).div(v2)),
+            (Float(v1), Integer(v2)) => return float_quotient_to_integer(v1.div(v2 as f64)),
         })
     }
 
@@ -377,7 +373,7 @@ impl GarnishNumber for SimpleNumber {
 
                 Integer(v)
             }
-            Float(v) => Float(v.abs()),
+            Float(v) => return finite_float(v.abs()),
         })
     }
 
@@ -391,7 +387,7 @@ impl GarnishNumber for SimpleNumber {
 
                 Integer(v)
             }
-            Float(v) => Float(-v),
+            Float(v) => return finite_float(-v),
         })
     }
 
